@@ -2,7 +2,7 @@
 from vlib import Rng
 import sockgen as G
 
-RULE = ("family sock: Construct, then setStatusCode/setHeader(replace|append)/setHeaders histories (0-8 setters, case-variant and repeated "
+RULE = ("every 10th history also over a real loopback connection (family socknet); " "family sock: Construct, then setStatusCode/setHeader(replace|append)/setHeaders histories (0-8 setters, case-variant and repeated "
         "names, values with commas), then [writeHeaders] write* [close] or one convenience response (writeError/writeRedirect/writeJson), "
         "then post-close calls; acknowledgements interleaved; wire re-parsed by an independent response parser; non-trivial = distinct case")
 ASSUMPTIONS = ["documented preconditions: setters before the head is out, at most one explicit writeHeaders, CR/LF-free names/values/reasons",
@@ -82,5 +82,8 @@ def cases(tier, seed, ctx=None):
         # calls after the close must change nothing (also C19)
         for _ in range(rng.range(0, 3)):
             ops.append(G.App(rng.choice([G.Write(b"late"), G.WriteHeaders, G.WriteError(500), G.Close, G.SetHeader(b"Late", b"1")])))
+        if i % (10 if tier == "quick" else 20) == 0:
+            # the same history over a REAL loopback connection: the client must receive exactly the model's wire bytes
+            yield ("socknet", [G.NOPOL, [o for o in ops if o[0] != 1] + [G.Turn], env, [3]], "net-" + tag)
         ops.append(G.Ack(rng.range(0, 100)))
         yield ("sock", [G.NOPOL, ops, env, [3]], tag)
